@@ -331,6 +331,9 @@ impl Task {
         let ctx = self.create_context();
         let value = utils::fill_params(&self.node.content.params(), &ctx);
         self.set_data_with(|data| data.set(consts::ACT_PARAMS_CACHE, value.clone()));
+        // the evaluation is part of the task from now on (a later look does not evaluate
+        // again): the stored row keeps it as well
+        let _ = self.runtime.cache().upsert(self);
 
         value
     }
